@@ -197,3 +197,21 @@ also("C16", "Also: validate() range-checks the type index of every transition (r
      "counting-loop recognition, record-layout tiling")
 also("C19", "Also: FromStr for Weekday/Month returns Ok only after finding the scanner's remainder empty; WeekdaySet::from_iter has no truncating adapter.")
 also("C20", "Also: every ts_* deserialize requests i64 (option: deserialize_option then i64), the primitive its serialize wrote.")
+
+# ---- additions after the third round of seeded changes -------------------------------------------------------------------------
+also("C01", "Also: each Mdf::with_* replaces exactly its own bit lane (mask and shift).")
+also("C05", "Also: parse_offset / parse_rule_time_extended multiply every component by the sign; days_since_unix_epoch equals the calendar's day count on one full 400-year period of each "
+            "of its two branches (finite map) with a periodicity lemma on the uses of `year` for all other years.")
+also("C07", "Also: NaiveDateTime::checked_add/sub_signed produce a value only through NaiveTime::overflowing_add/sub_signed; the provided Timelike::num_seconds_from_midnight reads hour, minute, second only.")
+also("C08", "Also: NaiveWeek::checked_first_day / checked_last_day as finite maps at both ends of the date range and around every kind of year boundary, for all seven week starts (thorough: every day of the representative years).",
+     "finite maps at the range ends")
+also("C09", "Also: Month::from_str maps scanned index k to month k+1; the relaxed RFC 3339 reader rejects no scanned value on its own.")
+also("C10", "Also: the readers reject a scanned value on their own only where the RFC says so (strict: offset beyond 23:59).")
+also("C11", "Also: every accepting path tries the comment scanner; no value rejection of its own.")
+also("C12", "Also: each numeric item is rendered only from pattern-bound (present) date/time parts, never from a defaulted one; %s needs both.")
+also("C13", "Also: %p and %P select the AM/PM string by the same test (hour12().0); the two long-name scanners compare the suffix through the same calls.")
+also("C14", "Also: no function assigns a Parsed field directly and `&mut` of a field is taken only in the setters (who-may-write).", "who-may-write")
+also("C16", "Also: parse_offset's sign shape; the abbreviation index read from the file is compared with header.char_count on every way to the slicing of the name table.")
+also("C17", "Also: the span that is classified is the caller's span unmodified; the input is returned unchanged exactly on the paths that tested stamp % span == 0.")
+also("C18", "Also: in Cache::offset the staleness test dominates both lookups; a leading ':' is stripped before the file lookup.")
+also("C20", "Also: TimeDelta's Serialize writes the raw (secs, nanos) fields that Deserialize hands to TimeDelta::new.")
